@@ -32,6 +32,7 @@ type Runner struct {
 	Queries int
 	MaxStep int // largest graph (stored vectors) for which exact edge lists are compared
 	Regimes map[string]int
+	Last    string // one-line summary of the last op (replay mode)
 	Tag     string // "h=<history number>" — lets a disagreeing op line be traced back to its history
 }
 
@@ -45,6 +46,7 @@ func graphFields(d *Dump) string {
 
 func (r *Runner) fail(sig, what string) {
 	r.Out.Fail(sig, what, r.replay())
+	r.Last += " ORACLE-FAILURE[" + sig + "] " + what
 	if r.Verbose {
 		fmt.Println("ORACLE-FAILURE", sig, "|", what)
 	}
@@ -84,8 +86,9 @@ func (r *Runner) Write(o Op) (ok bool) {
 		r.fail("dump-error", err.Error())
 		return false
 	}
+	r.Last = fmt.Sprintf("dump: %s L=%s free=%s next=%d", graphFields(d), idList(d.Live()), idList(d.Free), d.NextFree)
 	if r.Verbose {
-		fmt.Println("  dump:", graphFields(d), "L="+idList(d.Live()), "free="+idList(d.Free), "next=", d.NextFree)
+		fmt.Println("  " + r.Last)
 	}
 	if r.Mode == "c10" {
 		r.judgeWF(o, d)
@@ -371,6 +374,7 @@ func (r *Runner) Search(o Op) {
 		kind = "search:error"
 	}
 	r.Out.Emit(kind, line, impl, len(hits) > 0)
+	r.Last = "answer: " + impl
 	if r.Verbose {
 		fmt.Println("  answer:", impl)
 	}
@@ -736,6 +740,8 @@ func doReplay(mode, path string) {
 	var r *Runner
 	dir, _ := os.MkdirTemp("", "vgraph-replay")
 	defer os.RemoveAll(dir)
+	stopped := false
+	// exactly one output line per input line (the runner aligns them with the op lines)
 	for sc.Scan() {
 		line := strings.TrimSpace(sc.Text())
 		if line == "" || strings.HasPrefix(line, "#") {
@@ -745,39 +751,47 @@ func doReplay(mode, path string) {
 			cfg, err := ParseConfig(line)
 			if err != nil {
 				fmt.Println("bad cfg line")
-				os.Exit(2)
+				continue
+			}
+			if r != nil {
+				r.Sim.Close()
 			}
 			sim, err := NewSim(cfg, filepath.Join(dir, "db"))
 			if err != nil {
 				panic(err)
 			}
-			defer sim.Close()
-			r = &Runner{Mode: mode, Out: vh.NewOut(filepath.Join(dir, "out")), Sim: sim, Hist: []string{line}, InsOnly: true, Verbose: true, MaxStep: 0, Regimes: map[string]int{}, Tag: "h=replay"}
+			r = &Runner{Mode: mode, Out: vh.NewOut(filepath.Join(dir, "out")), Sim: sim, Hist: []string{line}, InsOnly: true, MaxStep: 0, Regimes: map[string]int{}, Tag: "h=replay"}
 			r.Prev, _ = sim.Dump()
-			fmt.Println(line)
-			continue
-		}
-		if r == nil {
-			fmt.Println("skip (not a history line)")
+			stopped = false
+			fmt.Println("shard created")
 			continue
 		}
 		o, err := ParseOp(line)
-		if err != nil {
+		if r == nil || err != nil {
 			fmt.Println("skip (not a history line)")
 			continue
 		}
-		fmt.Println(line)
+		if stopped {
+			fmt.Println("skip (history stopped)")
+			continue
+		}
+		r.Last = ""
 		if o.Kind == "qry" {
 			if mode == "c03" {
 				r.Search(o)
+			} else {
+				r.Last = "skip (query)"
 			}
+			fmt.Println(r.Last)
 			continue
 		}
 		if !r.Write(o) {
-			break
+			stopped = true
 		}
+		fmt.Println(r.Last)
 	}
 	if r != nil {
 		fmt.Printf("{\"oracle_failures\": %d}\n", len(r.Out.Oracle))
+		r.Sim.Close()
 	}
 }
